@@ -1,0 +1,19 @@
+//go:build verif
+
+// Verification hook (build tag "verif") for property C11: re-open the Streamable client's listening (GET) stream the
+// way the transport does it internally. Nothing here is compiled into a normal build.
+
+package mcp
+
+import "context"
+
+// VerifReopenGetStream makes the client open a new listening stream for its session (replacing the current one).
+// It reports false for clients whose transport has no listening stream.
+func VerifReopenGetStream(ctx context.Context, c *Client) bool {
+	t, ok := c.transport.(*streamableHTTPClientTransport)
+	if !ok {
+		return false
+	}
+	t.establishGetSSE(ctx)
+	return true
+}
